@@ -36,7 +36,7 @@ CHECKS['C12'] = dict(text='The templates are re-run with every numeric unconstra
              'exhausting the step budget is reported with a solver-produced description that is replayed on the native build.',
              note='semantic layer only (parser, file I/O outside); field/variant counts bounded; two-field layouts fix the two extern alignments per slice to boundary pairs (two unconstrained 64-bit alignments through gcd/lcm do not finish in the solver); a path whose feasibility the solver cannot decide within its time limit is reported as inconclusive, not as pass',
              design='4/C12')
-CHECKS['C04'] = dict(text='Symbolic execution of the vftable construction for 1..2 (thorough 3) virtual functions with symbolic #[index] and table #[size]: '
+CHECKS['C04'] = dict(text='Symbolic execution of the vftable construction for 1..4 virtual functions (free signatures up to 2) with symbolic #[index] and table #[size]: '
              'on accepted paths z3 proves every declared function sits in its slot (index, else predecessor+1), all other slots are private thiscall '
              'placeholders, the generated vftable struct lists the same slots with size = slots * pointer width, and the type starts with one private '
              'vftable pointer; on rejected paths it proves the indices/size were contradictory.  A second template gives one virtual function 0..4 parameters of mixed '
